@@ -23,7 +23,8 @@ def events_check(prop):
             _run(prop, "ops5-dev2-cb1", "quick", 5, 2, 1, 2, 0.2),
             _run(prop, "ops4-dev2-cb2", "quick", 4, 2, 2, 2, 0.3),
             _run(prop, "ops5-dev1-cb2", "quick", 5, 1, 2, 2, 0.8),
-            _run(prop, "ops5-dev2-cb1-alt", "quick", 5, 2, 1, 2, 0.95, alt=True),
+            _run(prop, "ops5-dev2-cb1-alt", "quick", 5, 2, 1, 2, 0.9, alt=True),
+            _run(prop, "ops5-dev1-cb1-4fd", "quick", 5, 1, 1, 4, 0.95),
             _run(prop, "ops6-dev2-cb2", "thorough", 6, 2, 2, 2, 0.35),
             _run(prop, "ops5-dev2-cb2-3fd", "thorough", 5, 2, 2, 3, 0.45),
             _run(prop, "ops7-dev2-cb1", "thorough", 7, 2, 1, 2, 0.4),
@@ -32,10 +33,10 @@ def events_check(prop):
             _run(prop, "ops5-dev2-cb2-alt", "thorough", 5, 2, 2, 2, 0.97, alt=True),
         ],
         deadline=dict(quick=200, thorough=3000),
-        bounds=dict(quick="union of four exhaustive explorations with 2 descriptors: (<=5 main-context operations, <=2 deviations, <=1 callback action), (<=4, <=2, <=2), (<=5, <=1, <=2), and (5,2,1) with the alternative timer alphabet (events_timer_register_double; 30-day timer beyond INT_MAX ms)",
+        bounds=dict(quick="union of five exhaustive explorations, 2 descriptors unless stated: (<=5 main-context operations, <=2 deviations, <=1 callback action), (<=4, <=2, <=2), (<=5, <=1, <=2), (5,2,1) with the alternative timer alphabet (events_timer_register_double; 30-day timer beyond INT_MAX ms), and (5,1,1) with 4 descriptors (poll answers then include: one descriptor hung up AND exactly one other event ready)",
                     thorough="union of six exhaustive explorations: (<=6 ops, <=2 deviations, <=2 callback actions, 2 descriptors), (5,2,2) with 3 descriptors, (7,2,1), (5,3,2), (4,2,3), and (5,2,2) with the alternative timer alphabet"),
         assumptions=["poll(2), clock_gettime(2) replaced by the harness (link-time interposition)",
-                     "<=3 immediates, <=3 descriptors x 2 directions, <=2 timers live at once; timeouts {0, 1.5 ms, 3 ms, 1 h}, in the -alt runs {0, 2^-9 s, 2^-8 s, 30 days} registered as doubles; clock starts 2 ms before a second boundary"],
+                     "<=3 immediates, <=3 descriptors x 2 directions, <=2 timers live at once; timeouts {0, 1.5 ms, 3 ms, 1 h}, in the -alt runs {0, 2^-9 s, 2147483.875 s (inside the second at which the ms time-out stops fitting an int), 30 days} registered as doubles; clock starts 2 ms before a second boundary"],
     )
 
 
